@@ -105,6 +105,15 @@ where
     read_eval_loop(&RefCell::new(env), &mut lexer).await
 }
 
+/// Guard that closes a file descriptor when dropped.
+struct CloseOnDrop<'a, S: Close>(&'a S, Fd);
+
+impl<S: Close> Drop for CloseOnDrop<'_, S> {
+    fn drop(&mut self) {
+        self.0.close(self.1).ok();
+    }
+}
+
 /// The second half of [`expand`] that does not depend on type parameter `C`.
 async fn expand_common<S>(
     reader: Fd,
@@ -138,8 +147,12 @@ where
     // (In case of an error, we will use whatever we have read so far and ignore the error,
     // just like bash does.)
     let mut result = Vec::new();
-    env.inner.system.read_all_to(reader, &mut result).await.ok();
-    env.inner.system.close(reader).ok();
+    {
+        // The guard closes the reader even if this future is dropped while
+        // waiting for the output, so that the FD does not leak.
+        let guard = CloseOnDrop(&env.inner.system, reader);
+        guard.0.read_all_to(reader, &mut result).await.ok();
+    }
 
     // Wait for the subshell to terminate (ignoring intermediate stopped states)
     let process_result = loop {
